@@ -87,6 +87,8 @@ def _leaves():
     add("KDRandomHorizontalFlip", lambda: kdt.KDRandomHorizontalFlip(), "T", True, True)
     add("KDRandomHorizontalFlip(PIL)", lambda: kdt.KDRandomHorizontalFlip(), "P", True)
     add("KDRandomSolarize", lambda: kdt.KDRandomSolarize(p=0.5, threshold=128), "P", True)
+    add("KDSolarize(int)", lambda: kdt.KDSolarize(threshold=100), "P", True)
+    add("KDSolarize(float)", lambda: kdt.KDSolarize(threshold=0.4), "T", True)
     add("KDRandomCrop", lambda: kdt.KDRandomCrop(size=8, padding=2), "T")
     add("KDRandomCrop(PIL)", lambda: kdt.KDRandomCrop(size=8), "P")
     add("KDTwoRandomCrop", lambda: KDTwoRandomCrop(size=8, overlap_min=0.1, overlap_max=0.9), "T")
